@@ -1,4 +1,4 @@
-CONSTANT MaxGates = 6
+CONSTANT MaxGates = 5
 CONSTANT MaxGateDeg = 8
 CONSTANT Mutant = "none"
 INIT Init
